@@ -115,9 +115,26 @@ impl<'a> SectionsBuilder<'a> {
             return;
         }
 
+        let before = self.builder.id();
+
         self.section_block(&blocks[range.start]);
 
         let id = self.builder.id();
+
+        // an item that starts with a list of empty items: the list left no node behind, so
+        // the builder still stands where it stood (on the enclosing list, or on the
+        // previous item) and its insert mode must stay as it is
+        if id == before && matches!(blocks[range.start], BulletList(_) | OrderedList(_)) {
+            if range.len() > 1 {
+                // what follows the empty list is the content of an item without text
+                self.builder.section(vec![]);
+                let id = self.builder.id();
+                self.process_blocks(range.start + 1..range.end, blocks);
+                self.builder.set_id(id);
+                self.builder.set_insert(false);
+            }
+            return;
+        }
 
         // an item that starts with a list is merged into the enclosing list: what follows
         // the leading list belongs to the last merged item, after the children it already
